@@ -4,5 +4,5 @@ cd "$(dirname "$0")/.." || exit 2
 set -e
 mkdir -p .build/harness
 g++ -O2 -std=c++17 -o .build/harness/rupcheck harness/rupcheck.cc
-[ -x tools/build_harness_api.sh ] && tools/build_harness_api.sh h_rational h_numlit h_mkterm h_round h_hashcons h_threads h_stop || true
+[ -x tools/build_harness_api.sh ] && tools/build_harness_api.sh h_rational h_numlit h_mkterm h_round h_hashcons h_threads h_stop h_theory || true
 echo harness done
